@@ -298,9 +298,19 @@ class AssignBase(StatementBase):
         get_deps = self.get_dependency_mapper()
 
         def get_vars(expr):
-            return frozenset(dep.name for dep in get_deps(self.rhs))
+            return frozenset(dep.name for dep in get_deps(expr))
 
-        result = get_vars(self.rhs) | get_vars(self.lhs)
+        result = result | get_vars(self.rhs)
+
+        # A subscript on the left-hand side is evaluated, too. (The
+        # variable being subscripted is written, not read.)
+        from pymbolic.primitives import Subscript
+        if isinstance(self.lhs, Subscript):
+            index = self.lhs.index
+            if not isinstance(index, tuple):
+                index = (index,)
+            for index_i in index:
+                result = result | get_vars(index_i)
 
         return result
 
@@ -437,6 +447,15 @@ class Assign(Statement, AssignBase):
     @property
     def expression(self):
         return self.rhs
+
+    def get_read_variables(self):
+        result = super().get_read_variables()
+
+        # The loop bounds are evaluated by this statement.
+        for _ident, start, end in self.loops:
+            result = result | get_variables(start) | get_variables(end)
+
+        return result
 
     def map_expressions(self, mapper, include_lhs=True):
         return (super()
